@@ -216,6 +216,30 @@ func rsAnnounce(p *rsPeer, v6 bool, prefix int, pathID uint32, a rsAttrs) *bgp.B
 	return bgp.NewBGPUpdateMessage(nil, attrs, []bgp.PathNLRI{{NLRI: nlri, ID: pathID}})
 }
 
+// rs2ByteAS rewrites the AS_PATH of an UPDATE the way a speaker without the 4-octet-AS
+// capability sends it: 2-octet AS numbers (the generated AS numbers all fit).
+func rs2ByteAS(m *bgp.BGPMessage) *bgp.BGPMessage {
+	u, ok := m.Body.(*bgp.BGPUpdate)
+	if !ok {
+		return m
+	}
+	for i, a := range u.PathAttributes {
+		if v, ok := a.(*bgp.PathAttributeAsPath); ok {
+			var ps []bgp.AsPathParamInterface
+			for _, p := range v.Value {
+				l := p.GetAS()
+				as := make([]uint16, len(l))
+				for j := range l {
+					as[j] = uint16(l[j])
+				}
+				ps = append(ps, bgp.NewAsPathParam(p.GetType(), as))
+			}
+			u.PathAttributes[i] = bgp.NewPathAttributeAsPath(ps)
+		}
+	}
+	return m
+}
+
 func rsWithdraw(v6 bool, prefix int, pathID uint32) *bgp.BGPMessage {
 	nlri, _ := bgp.NewIPAddrPrefix(rsPrefix(v6, prefix))
 	if v6 {
